@@ -9,8 +9,10 @@ DECIDED = ("R1 in-order acceptance: bytes enter recv_buf only behind `seg.seq ==
            "abort_timed_out; R4 abort_with records reset/timed_out and wakes connect/read/write waiters; every parking syscall "
            "tests abort_error before it parks; R5 no lost wake-up: after accepting data or FIN, or processing an ACK, the "
            "corresponding wake flag is raised and acted upon; R6 every state the segmenter transmits in is a retransmit candidate.")
-NOT_DECIDED = ("liveness as a whole (every byte and EOF delivered under bounded loss): window arithmetic, zero-window handling "
-               "(known defect D6: with small reads the receiver never re-advertises), retransmit sufficiency; byte equality.")
+NOT_DECIDED = ("liveness as a whole (every byte and EOF delivered under bounded loss): only the three structural necessary conditions "
+               "R9-R11 are decided - window arithmetic, retransmit sufficiency and timing are not; a connection that has a zero-window "
+               "recovery channel is not thereby shown to be live (recorded finding D6 is reported by R9); byte equality.")
+DECIDED += "; R8 exhaustive scans (check_retx, segment_all, Kernel::egress, Fabric::egress_all); three structural necessary conditions of the liveness half: R9 a zero window has a recovery channel (a spontaneous emission that is not window-gated / a re-advertisement independent of the read size), R10 every segment that occupies sequence space is answered whether or not it is accepted, R11 the retransmit budget restarts when the handshake completes"
 ASSUMPTIONS = ["BytesMut::extend_from_slice / split_to semantics"]
 
 T = "turmoil_net::kernel::socket::Tcb::"
